@@ -39,6 +39,7 @@ type Violation struct {
 	Trace   string
 	Kind    string // "assert", "panic", "hang", "deadlock"
 	Path    []int
+	Sched   bool   // found on a path that explores goroutine interleavings (its schedule cannot be forced natively)
 	Tags    string // input-class tags the harness attached before the violation (verifrt.Tag), sorted, comma-joined
 }
 
@@ -367,7 +368,7 @@ func (it *Interp) checkAssertion(notc *Term) (SatResult, Model) {
 func (it *Interp) recordViolation(kind, label, detail string, m Model) {
 	p := it.path
 	in, where, tr := it.innermostCasket()
-	v := Violation{Harness: it.harnessName, Label: label, Kind: kind, In: in, Where: where, Detail: detail, Trace: tr, Tags: it.path.tagString()}
+	v := Violation{Harness: it.harnessName, Label: label, Kind: kind, In: in, Where: where, Detail: detail, Trace: tr, Tags: it.path.tagString(), Sched: it.path.concurrent}
 	v.Events = it.eventsWithModel(m)
 	for _, d := range p.decisions {
 		v.Path = append(v.Path, d.Chosen)
